@@ -525,7 +525,13 @@ fn sources_of(functions: Vec<Function>) -> Sources {
 fn apply_pass(heap: &mut Heap, functions: &[Function], pass: &str, cfg: u32) -> Result<Vec<Function>, String> {
   let fs: Vec<Function> = functions.to_vec();
   let r = catch_unwind(AssertUnwindSafe(|| match pass {
-    "all" => samlang_optimization::optimize_sources(heap, sources_of(fs), &config(cfg)).functions,
+    "all" => {
+      let out = samlang_optimization::optimize_sources(heap, sources_of(fs), &config(cfg)).functions;
+      if let Err(m) = temp_counter_invariant(heap, &out) {
+        panic!("{m}");
+      }
+      out
+    }
     "inline" | "unused" => {
       verif_hooks::run_pass_sources(pass, heap, sources_of(fs)).expect("known pass").functions
     }
@@ -583,7 +589,13 @@ fn apply_pass_sources(heap: &mut Heap, src: &Sources, pass: &str, cfg: u32) -> R
     functions: fs,
   };
   let r = catch_unwind(AssertUnwindSafe(|| match pass {
-    "all" => samlang_optimization::optimize_sources(heap, rebuilt(functions), &config(cfg)).functions,
+    "all" => {
+      let out = samlang_optimization::optimize_sources(heap, rebuilt(functions), &config(cfg)).functions;
+      if let Err(m) = temp_counter_invariant(heap, &out) {
+        panic!("{m}");
+      }
+      out
+    }
     "inline" | "unused" => verif_hooks::run_pass_sources(pass, heap, rebuilt(functions)).expect("known pass").functions,
     _ => {
       let mut fs = functions;
@@ -596,6 +608,160 @@ fn apply_pass_sources(heap: &mut Heap, src: &Sources, pass: &str, cfg: u32) -> R
     }
   }));
   r.map_err(|e| panic_msg(&e))
+}
+
+/// The invariant `optimize_sources` owes to later phases: every temporary name `_tN…` it left in
+/// the program is below the heap's next temporary id (otherwise `compile_mir_to_lir`, which draws
+/// from the heap, re-issues names that are already in use).
+fn temp_counter_invariant(heap: &Heap, functions: &[Function]) -> Result<(), String> {
+  let next_name = heap.create_temp_counter().alloc_temp_str();
+  let next: u64 = next_name.as_str(heap).trim_start_matches("_t").parse().unwrap_or(u64::MAX);
+  let mut worst: Option<(u64, String, String)> = None;
+  let mut note = |heap: &Heap, f: &Function, n: &PStr| {
+    let s = n.as_str(heap);
+    if let Some(rest) = s.strip_prefix("_t") {
+      let digits: String = rest.chars().take_while(|c| c.is_ascii_digit()).collect();
+      if let Ok(id) = digits.parse::<u64>() {
+        if id >= next && worst.as_ref().map(|w| id > w.0).unwrap_or(true) {
+          worst = Some((id, s.to_string(), f.name.fn_name.as_str(heap).to_string()));
+        }
+      }
+    }
+  };
+  fn walk_defs(ss: &[Statement], out: &mut Vec<PStr>) {
+    for s in ss {
+      match s {
+        Statement::Binary(b) => out.push(b.name),
+        Statement::Not { name, .. }
+        | Statement::IsPointer { name, .. }
+        | Statement::IndexedAccess { name, .. }
+        | Statement::Cast { name, .. }
+        | Statement::LateInitDeclaration { name, .. } => out.push(*name),
+        Statement::Call { return_collector, .. } => out.extend(return_collector.iter().copied()),
+        Statement::IfElse { s1, s2, final_assignments, .. } => {
+          walk_defs(s1, out);
+          walk_defs(s2, out);
+          out.extend(final_assignments.iter().map(|fa| fa.name));
+        }
+        Statement::SingleIf { statements, .. } => walk_defs(statements, out),
+        Statement::While { loop_variables, statements, break_collector } => {
+          out.extend(loop_variables.iter().map(|v| v.name));
+          walk_defs(statements, out);
+          out.extend(break_collector.iter().map(|v| v.name));
+        }
+        Statement::StructInit { struct_variable_name, .. } => out.push(*struct_variable_name),
+        Statement::ClosureInit { closure_variable_name, .. } => out.push(*closure_variable_name),
+        Statement::Break(_) | Statement::LateInitAssignment { .. } => {}
+      }
+    }
+  }
+  for f in functions {
+    let mut defs = Vec::new();
+    walk_defs(&f.body, &mut defs);
+    for n in &defs {
+      note(heap, f, n);
+    }
+  }
+  match worst {
+    None => Ok(()),
+    Some((id, name, func)) => Err(format!(
+      "temp-counter-stale next_heap_temp={next} but optimised function {func} defines {name} (id {id})"
+    )),
+  }
+}
+
+/// One build of a samlang module: `cfg = None` = no optimisation at all, `Some(bits)` = optimize_sources
+/// with that configuration; lowering and emission exactly as `samlang_compiler::compile_sources`.
+fn build_with(text: &str, cfg: Option<u32>, loader: &str) -> Result<samverif_harness::exec::Compiled, String> {
+  let text = text.to_string();
+  let loader = loader.to_string();
+  let r = catch_unwind(AssertUnwindSafe(move || {
+    let heap = &mut Heap::new();
+    let mut error_set = samlang_errors::ErrorSet::new();
+    let mr = heap.alloc_module_reference_from_string_vec(vec!["Demo".to_string()]);
+    let parsed = samlang_parser::parse_source_module_from_text(&text, mr, heap, &mut error_set);
+    let mut parsed_sources = HashMap::new();
+    parsed_sources.insert(mr, parsed);
+    let checked = samlang_checker::type_check_sources(&parsed_sources, &mut error_set).0;
+    if error_set.has_errors() {
+      return Err("rejected".to_string());
+    }
+    let mut mir = samlang_compiler::compile_sources_to_mir(heap, &checked);
+    if let Some(bits) = cfg {
+      mir = samlang_optimization::optimize_sources(heap, mir, &config(bits));
+      temp_counter_invariant(heap, &mir.functions)?;
+    }
+    let mut lir = samlang_compiler::compile_mir_to_lir(heap, mir);
+    let common_ts_code = lir.pretty_print(heap);
+    let mut main_fn_name = String::new();
+    FunctionName { type_name: lir.symbol_table.create_main_type_name(mr), fn_name: PStr::MAIN_FN }
+      .write_encoded(&mut main_fn_name, heap, &lir.symbol_table);
+    let ts = format!("{common_ts_code}\n{main_fn_name}();\n");
+    let wasm_js = format!(
+      "const binary = require('fs').readFileSync(require('path').join(__dirname, '__all__.wasm'));\nrequire('./__samlang_loader__.js')(binary).{main_fn_name}();\n"
+    );
+    let (wat, wasm) = samlang_compiler::compile_lir_to_wasm(heap, lir);
+    Ok(samverif_harness::exec::Compiled { ts, wasm_js, loader, wat, wasm })
+  }));
+  match r {
+    Ok(x) => x,
+    Err(e) => Err(format!("compiler-panic {}", panic_msg(&e).replace('\n', " "))),
+  }
+}
+
+/// `e2e CFGS TS | | <hex source>`: CFGS = comma list of `real` (the shipped compile_sources), or
+/// configuration bits; every build is run under Node and compared with the un-optimised build.
+fn e2e_line(rest: &str, n: usize) -> String {
+  use samverif_harness::exec;
+  let parts: Vec<&str> = rest.splitn(3, '|').collect();
+  if parts.len() != 3 {
+    return "bad-line".to_string();
+  }
+  let head: Vec<&str> = parts[0].split_whitespace().collect();
+  if head.len() != 2 {
+    return "bad-line".to_string();
+  }
+  let run_ts = head[1] == "1";
+  let text = unhex_str(parts[2].trim());
+  if exec::find_node().is_none() {
+    return "no-node".to_string();
+  }
+  // the shipped pipeline (also the source of the loader text)
+  let real = match exec::compile_program(&[("Demo".to_string(), text.clone())], "Demo", false) {
+    exec::CompileOutcome::Ok(c) => c,
+    exec::CompileOutcome::Errors(e) => return format!("bad-program {}", e.replace('\n', " / ")),
+    exec::CompileOutcome::Panic(m) => return format!("panic {}", m.replace('\n', " ")),
+  };
+  let timeout = std::time::Duration::from_secs(20);
+  let show = |r: &exec::RunResult| format!("{}|{}", r.lines.join(","), r.end.replace(' ', "_"));
+  let base = match build_with(&text, None, &real.loader) {
+    Ok(c) => exec::run_compiled(&c, &exec::scratch_dir("c02", n * 100), timeout, run_ts),
+    Err(m) => return format!("baseline-failed {m}"),
+  };
+  if base.wasm.end == "timeout" {
+    return "ok inconclusive-timeout".to_string();
+  }
+  let mut compared = 0;
+  for (k, c) in head[0].split(',').enumerate() {
+    let built = if c == "real" {
+      Ok(exec::Compiled { ts: real.ts.clone(), wasm_js: real.wasm_js.clone(), loader: real.loader.clone(), wat: String::new(), wasm: real.wasm.clone() })
+    } else {
+      build_with(&text, Some(c.parse().unwrap_or(31)), &real.loader)
+    };
+    let built = match built {
+      Ok(b) => b,
+      Err(m) => return format!("invariant cfg={c} {}", m.replace(' ', "_")),
+    };
+    let runs = exec::run_compiled(&built, &exec::scratch_dir("c02", n * 100 + k + 1), timeout, run_ts);
+    compared += 1;
+    if runs.wasm != base.wasm {
+      return format!("diff cfg={c} backend=wasm unoptimised={} optimised={}", show(&base.wasm), show(&runs.wasm));
+    }
+    if run_ts && runs.ts != base.ts {
+      return format!("diff cfg={c} backend=ts unoptimised={} optimised={}", show(&base.ts), show(&runs.ts));
+    }
+  }
+  format!("ok compared={compared} lines={} end={}", base.wasm.lines.len(), base.wasm.end.replace(' ', "_"))
 }
 
 /// `srcprog PASS CFG | a,b;… | <hex of samlang source>`: entry function is `run`.
@@ -1283,11 +1449,25 @@ fn kernel_line(t: &[&str]) -> String {
   }
 }
 
+struct Cleanup;
+impl Drop for Cleanup {
+  fn drop(&mut self) {
+    samverif_harness::exec::cleanup_scratch("c02");
+  }
+}
+
 fn main() {
+  let _cleanup = Cleanup;
   std::panic::set_hook(Box::new(|_| {}));
+  let mut e2e_count = 0usize;
   for_each_line(|line| {
     if let Some(rest) = line.strip_prefix("prog ") {
       return catch_unwind(AssertUnwindSafe(|| prog_line(rest, false))).unwrap_or_else(|e| format!("harness-panic {}", panic_msg(&e)));
+    }
+    if let Some(rest) = line.strip_prefix("e2e ") {
+      e2e_count += 1;
+      let n = e2e_count;
+      return catch_unwind(AssertUnwindSafe(|| e2e_line(rest, n))).unwrap_or_else(|e| format!("harness-panic {}", panic_msg(&e)));
     }
     if let Some(rest) = line.strip_prefix("srcprog ") {
       return catch_unwind(AssertUnwindSafe(|| srcprog_line(rest, false))).unwrap_or_else(|e| format!("harness-panic {}", panic_msg(&e)));
